@@ -81,6 +81,9 @@ func VerifBatchAllOrNothing() {
 	// the batch under test, with a storage fault at its k-th mutating operation (or none)
 	kind := nondetIntRange(0, 3)
 	st.failAt = nondetIntRange(-1, vparam("FAULTS", 12))
+	if st.failAt == -1 && vparam("COMMITFAULT", 1) == 1 {
+		st.failCommit = nondetBool() // no write fails, but the commit itself may
+	}
 	st.ops, st.counting = 0, true
 	st.useAfterEnd = 0
 	st.strict = vparam("STRICT", 1) == 1
@@ -97,7 +100,7 @@ func VerifBatchAllOrNothing() {
 		_, err = s.DeletePoints(map[uuid.UUID]struct{}{a: {}})
 	}
 	st.counting = false
-	faulted := st.failAt >= 0 && st.ops > st.failAt
+	faulted := (st.failAt >= 0 && st.ops > st.failAt) || st.commitFailed
 	vcover("reached")
 	vassert("no-storage-access-after-the-transaction-ended", st.useAfterEnd == 0)
 	if faulted || kind == 1 {
